@@ -1,4 +1,4 @@
-package c17
+package c17tmp
 
 import (
 	"bufio"
@@ -336,6 +336,10 @@ type child struct {
 	samples  int
 	curGroup int
 	sites    map[string][2]string
+	// allocHits counts allocation-bound violations per codec in this child;
+	// once a codec is refuted often enough the (seconds-long) maximum-count
+	// mutations against it are skipped and counted as such.
+	allocHits map[string]int
 }
 
 func (ch *child) emit(r childRec) {
@@ -492,6 +496,7 @@ func (ch *child) runCase(id string, c *codec, kind string, input, seed []byte) (
 		}
 	case alloc > allocBound(len(input)):
 		ch.obs["alloc_bound_exceeded"]++
+		ch.allocHits[c.name]++
 		// attribute the allocation by re-running under the heap profiler, once
 		// per codec and mutation class in this child (the re-run costs as much
 		// as the offending call)
@@ -535,6 +540,10 @@ func (ch *child) runCase(id string, c *codec, kind string, input, seed []byte) (
 			} else {
 				outcome = "accepted:non-canonical"
 				ch.obs["accepted_noncanonical_inputs"]++
+				if ch.samples < 1 && len(input) < 400 {
+					ch.samples++
+					ch.emit(childRec{T: "s", Case: id, Sample: map[string]any{"case": id, "codec": c.name, "mutation": kind, "outcome": "accepted, re-encoding differs from the input", "input_hex": hexCap(input), "reencoded_hex": hexCap(re), "violations": len(vs)}})
+				}
 			}
 			ch.obs["accepted_inputs"]++
 			if report {
@@ -625,6 +634,10 @@ func (ch *child) runGroup(g int, skip int, fuzzPerGroup int) {
 		for _, p := range sites[:min(len(sites), 10)] {
 			for _, bc := range bigCounts {
 				if r.Chance(1, 2) {
+					if ch.allocHits[c.name] >= 6 {
+						ch.counts[c.name+"|count-max|skipped:allocation-bound-already-refuted-6-times"]++
+						continue
+					}
 					run(fmt.Sprintf("count-max@%d", p), splice(seed, p, 1, bc))
 				}
 			}
@@ -680,7 +693,7 @@ func runChild(spec string) {
 		fmt.Fprintln(os.Stderr, err)
 		os.Exit(2)
 	}
-	ch := &child{out: bufio.NewWriter(outF), outF: outF, last: last, counts: map[string]int64{}, obs: map[string]int64{}, only: os.Getenv("VERIF_ONLY_CASE"), sites: map[string][2]string{}}
+	ch := &child{out: bufio.NewWriter(outF), outF: outF, last: last, counts: map[string]int64{}, obs: map[string]int64{}, only: os.Getenv("VERIF_ONLY_CASE"), sites: map[string][2]string{}, allocHits: map[string]int{}}
 	ch.codecs = allCodecs()
 	ch.sched = schedule(ch.codecs)
 	pubKeys()
